@@ -447,3 +447,7 @@ impl Writer {
         self.written_bytes == w.data[self.active_fileid].size && self.written_bytes <= self.ctx.conf.max_file_size
     }
 }
+
+/// the rely half of T8: the Writer behind the lock and the Readers in the pool satisfy their invariants
+impl SharedInv for Writer { closed spec fn shared_inv(&self, w: &World) -> bool { self.inv(w) } }
+impl SharedInv for Reader { closed spec fn shared_inv(&self, w: &World) -> bool { world_wf(w) && index_ok(self.ctx.keydir@, w) } }
